@@ -17,6 +17,9 @@ import time
 
 ROOT = os.path.dirname(os.path.dirname(os.path.abspath(__file__)))
 REPO = os.environ.get("VERIF_REPO", "/repo")
+# trial runs against a scratch copy of the repository (seeded changes) keep their output away from the committed
+# evidence: VERIF_OUT_DIR=<dir> redirects scratch/, evidence/ and replays/
+OUT = os.environ.get("VERIF_OUT_DIR", ROOT)
 TLA_CP = "/opt/veriftools/tla/tla2tools.jar:/opt/veriftools/tla/CommunityModules-deps.jar"
 NCPU = os.cpu_count() or 4
 
@@ -62,7 +65,7 @@ class Check:
         self.seed = int(seed)
         self.level = level
         self.t0 = time.time()
-        self.scratch = os.path.join(ROOT, "scratch", "%s-%s" % (pid, tier))
+        self.scratch = os.path.join(OUT, "scratch", "%s-%s" % (pid, tier))
         shutil.rmtree(self.scratch, ignore_errors=True)
         os.makedirs(self.scratch, exist_ok=True)
         self.coverage = {}
@@ -93,7 +96,7 @@ class Check:
             with open(os.path.join(work, fn), "w") as f:
                 f.write(text)
         meta = os.path.join(work, "meta")
-        jvm = ["java", "-XX:+UseParallelGC", "-Xss64m"]
+        jvm = ["java", "-XX:+UseParallelGC", "-Xss512m"]
         if heap:
             jvm.append("-Xmx%s" % heap)
         if dfs:
@@ -305,7 +308,7 @@ class Check:
                 return False
         path = None
         if replay_obj is not None and len(self.violations) < 3:
-            d = os.path.join(ROOT, "replays", self.pid)
+            d = os.path.join(OUT, "replays", self.pid)
             os.makedirs(d, exist_ok=True)
             h = hashlib.sha1(json.dumps(replay_obj, sort_keys=True).encode()).hexdigest()[:12]
             path = os.path.join(d, "%s-%s.json" % (self.tier, h))
@@ -330,8 +333,8 @@ class Check:
         ev = {"property_id": self.pid, "tier": self.tier, "seed": self.seed, "level": self.level,
               "coverage": cov, "assumptions": self.assumptions, "wall_s": round(wall, 2),
               "violations": len(self.violations)}
-        os.makedirs(os.path.join(ROOT, "evidence"), exist_ok=True)
-        with open(os.path.join(ROOT, "evidence", self.pid + ".json"), "w") as f:
+        os.makedirs(os.path.join(OUT, "evidence"), exist_ok=True)
+        with open(os.path.join(OUT, "evidence", self.pid + ".json"), "w") as f:
             json.dump(ev, f, indent=1, default=str)
         for k in self.known_hits:
             print("KNOWN-FINDING: property=%s %s [%s]" % (self.pid, k["what"], k["id"]), flush=True)
